@@ -201,8 +201,9 @@ def conc_search(ctx):
 # one entry per half of the family; each returns dict(rule=, assumptions=[...], extra={...})
 import C05b
 import symmetry_part
+import C05_gen
 
-LEAN_MODULES = ['C05', 'C05b'] + symmetry_part.LEAN_MODULES
+LEAN_MODULES = ['C05', 'C05b'] + symmetry_part.LEAN_MODULES + C05_gen.LEAN_MODULES
 
 PARTS = [part_a, C05b.parts]
 
@@ -217,4 +218,7 @@ def check(ctx):
         extra.update(info.get('extra', {}))
     sym = symmetry_part.parts(ctx)
     rules.append(sym['rule_part'])
-    return dict(rule=' || '.join(rules), assumptions=assumptions, extra=extra, search=sym['search'])
+    gen = C05_gen.parts(ctx)
+    rules.append(gen['rule_part'])
+    assumptions += gen['assumptions']
+    return dict(rule=' || '.join(rules), assumptions=assumptions, extra=extra, search=combine_search(gen['search'], sym['search']))
